@@ -302,7 +302,9 @@ class Ctx:
         # violation (the property is no longer shown to hold).
         covered = any(not v['found_input'] or v.get('covers_obligations', True)
                       for v in self.violations)
-        if broken and not self.violations:
+        # (known findings do not excuse a broken obligation)
+        unknown = [v for v in self.violations if v['sig'] not in known]
+        if broken and not unknown:
             self.violation(
                 'obligation-broken',
                 'obligations no longer check: ' +
